@@ -81,6 +81,10 @@ if [ "$ID" = "selftest-determinism" ]; then
 fi
 
 COMMON=( -worker "$SCR/simworld" -workers "$WORKERS" )
+# C14 and C15 quantify over configurations, histories and inputs - not over
+# schedules: their shared-band runs judge the answers of the band, not the
+# race detector's reports (race freedom is C10's clause)
+case "$ID" in C14|C15) COMMON+=( -races-not-judged ) ;; esac
 if [ -f "$SCR/fresh_mode" ]; then
   echo "check.sh: the MAC registry has an unexpected shape: no reset hook, every seed runs in its own worker process"
   COMMON+=( -fresh )
